@@ -503,6 +503,9 @@ func (adb *AccountDB) Commit(deleteEmptyObjects bool) (root common.Hash, err err
 			adb.updateAccountObject(accountObject)
 		}
 		delete(adb.accountObjectsDirty, addr)
+		// the object stays cached: re-arm its one-shot dirty hook so that a
+		// write made after this commit marks it dirty again
+		accountObject.onDirty = adb.MarkAccountObjectDirty
 		return true
 	})
 	if e != nil {
